@@ -23,17 +23,27 @@ PROPERTY = 'C13'
 LEAN_TARGETS = ['CpProofs.C13', 'drv_c13']
 DRIVER = 'drv_c13'
 THEOREMS = [
-    # (a) RamSession interleavings, any number of threads, any schedule
-    'CpProofs.C13.C13_mutex_no_sweep',
-    'CpProofs.C13.C13_mutex_full_orig_false',
-    'CpProofs.C13.C13_lost_update_orig',
-    'CpProofs.C13.C13_release_error_orig',
-    'CpProofs.C13.C13_blocked_forever_orig',
-    'CpProofs.C13.C13_mutex_full_recheck',
-    'CpProofs.C13.C13_no_lost_update',
-    'CpProofs.C13.C13_no_release_error',
-    'CpProofs.C13.C13_released_ram',
-    'CpProofs.C13.C13_no_deadlock',
+    # (a) lock-table backends: several ids, ANY number of request threads and sweepers, handler scripts
+    'CpProofs.C13N.C13N_mutex',
+    'CpProofs.C13N.C13N_no_lost_update',
+    'CpProofs.C13N.C13N_no_release_error',
+    'CpProofs.C13N.C13N_released',
+    'CpProofs.C13N.C13N_regenerate_moves_the_lock',
+    'CpProofs.C13N.C13N_no_deadlock',
+    'CpProofs.C13N.C13N_sweep_respects_cs',
+    'CpProofs.C13N.C13N_frame',
+    'CpProofs.C13N.C13N_two_sweepers_orig_false',
+    'CpProofs.C13N.C13N_two_sweepers_orig_crash',
+    'CpProofs.C13N.C13N_two_sweepers_orig_blocked',
+    'CpProofs.C13N.C13N_orig_swept_false',
+    'CpProofs.C13N.C13N_mutex_no_sweep',
+    # admission of recorded traces (trace inclusion modulo stuttering)
+    'CpProofs.C13Admit.follow_sound',
+    'CpProofs.C13Admit.followT_sound',
+    'CpProofs.C13Admit.admits_sound',
+    'CpProofs.C13Admit.admitsT_sound',
+    'CpProofs.C13N.C13N_admitted_safe',
+    'CpProofs.C13.C13_file_admitted_safe',
     # (b) FileSession relative to the FileLock contract (threads and processes)
     'CpProofs.C13.C13_file_mutex',
     'CpProofs.C13.C13_file_ops_locked',
